@@ -51,7 +51,7 @@ func structTypeX(r *rand.Rand, ls []xLabel, ptr bool) reflect.Type {
 		var tags []string
 		fname := fmt.Sprintf("F%d", i)
 		if l.Name != "" {
-			if r.Intn(2) == 0 {
+			if r.Intn(2) == 0 && l.Name[0] < 0x80 {
 				// name via the field name
 				fname = strings.ToUpper(l.Name[:1]) + recase(r, l.Name[1:])
 				tags = append(tags, "")
@@ -205,7 +205,7 @@ func runC14(c *CaseCtx) (res CaseResult) {
 	if c.Idx%50 == 7 {
 		return runC14SameNamedTypes(c, r)
 	}
-	names := []string{"alpha", "beta", "gamma", "delta", "x"}
+	names := []string{"alpha", "beta", "gamma", "delta", "x", "ärger"}
 	subs := []string{"s", "t9", "a+b", "k=v", "v1.2/x"}
 	list := func(n int, form int) []xLabel {
 		var out []xLabel
@@ -750,7 +750,7 @@ func init() {
 
 func runC16(c *CaseCtx) (res CaseResult) {
 	r := caseRand(c.Seed, "C16", c.Idx)
-	names := []string{"alpha", "beta", "gamma", "dx"}
+	names := []string{"alpha", "beta", "gamma", "dx", "ärger", "émile"}
 	var ls []xLabel
 	usedN := map[string]bool{}
 	usedT := map[int]bool{}
